@@ -3,9 +3,29 @@
 package chunkio
 
 import (
+	"bufio"
+	"bytes"
 	"errors"
 	"io"
+	"strings"
 )
+
+// Concrete source types (Plan.Src, AtPlan.Src). Library code may special-case
+// the dynamic type of the reader it is handed (a *bytes.Buffer can drop bytes
+// in place, a *bytes.Reader can seek, a *bufio.Reader can peek): a property
+// quantified over "any io.Reader" has to be exercised over the usual ones.
+const (
+	SrcChunk         = ""                 // this package's own Reader / SeekReader (segmentation per plan)
+	SrcBytesBuffer   = "bytes.Buffer"     // *bytes.Buffer: io.Reader, io.ByteReader, io.WriterTo; no Seek
+	SrcBytesReader   = "bytes.Reader"     // *bytes.Reader: also io.Seeker and io.ReaderAt
+	SrcStringsReader = "strings.Reader"   // *strings.Reader: like *bytes.Reader
+	SrcBufio         = "bufio.Reader"     // *bufio.Reader (16-byte buffer) over this package's non-seekable Reader
+	SrcSection       = "io.SectionReader" // *io.SectionReader over a *bytes.Reader: Reader, Seeker, ReaderAt
+	SrcPlainAt       = "plain"            // AtPlan only: a type that is an io.ReaderAt and nothing else
+)
+
+// StreamSrcs are the concrete types New can produce besides SrcChunk.
+var StreamSrcs = []string{SrcBytesBuffer, SrcBytesReader, SrcStringsReader, SrcBufio, SrcSection}
 
 // Plan describes how a byte string is delivered.
 type Plan struct {
@@ -19,6 +39,11 @@ type Plan struct {
 	// EOFWithData makes the final read return (n, io.EOF) instead of (n, nil)
 	// followed by (0, io.EOF); both are allowed by io.Reader.
 	EOFWithData bool `json:"eof_with_data,omitempty"`
+	// Src selects a concrete source type instead of this package's reader ("" =
+	// as ever, so that recorded plans replay unchanged). The standard types decide
+	// segmentation, seekability and EOF behaviour themselves; Sizes / Rest / EOFWithData
+	// then only apply beneath SrcBufio.
+	Src string `json:"src,omitempty"`
 }
 
 // Reader delivers data per plan and counts bytes handed out.
@@ -34,6 +59,41 @@ type Reader struct {
 // New returns a reader for data. If plan.Seekable the result also implements
 // io.Seeker (use NewSeekable to get that static type).
 func New(data []byte, plan Plan) io.Reader {
+	r, _ := Open(data, plan)
+	return r
+}
+
+// Open is New plus a function that tells how many bytes of data the consumer
+// has taken so far (for a *bufio.Reader: handed out by it, not read ahead by it).
+func Open(data []byte, plan Plan) (io.Reader, func() int) {
+	seekPos := func(s io.Seeker) func() int {
+		return func() int { p, _ := s.Seek(0, io.SeekCurrent); return int(p) }
+	}
+	switch plan.Src {
+	case SrcBytesBuffer:
+		b := bytes.NewBuffer(append([]byte(nil), data...))
+		return b, func() int { return len(data) - b.Len() }
+	case SrcBytesReader:
+		r := bytes.NewReader(data)
+		return r, seekPos(r)
+	case SrcStringsReader:
+		r := strings.NewReader(string(data))
+		return r, seekPos(r)
+	case SrcSection:
+		r := io.NewSectionReader(bytes.NewReader(data), 0, int64(len(data)))
+		return r, seekPos(r)
+	case SrcBufio:
+		p := plan
+		p.Seekable, p.Src = false, ""
+		in := &Reader{data: data, plan: p}
+		br := bufio.NewReaderSize(in, 16)
+		return br, func() int { return in.pos - br.Buffered() }
+	}
+	r := newChunk(data, plan)
+	return r, func() int { return PosOf(r) }
+}
+
+func newChunk(data []byte, plan Plan) io.Reader {
 	r := &Reader{data: data, plan: plan}
 	if plan.Seekable {
 		return &SeekReader{r}
@@ -111,6 +171,86 @@ func PosOf(r io.Reader) int {
 		return x.pos
 	case *SeekReader:
 		return x.pos
+	case *bytes.Reader, *strings.Reader, *io.SectionReader:
+		p, _ := x.(io.Seeker).Seek(0, io.SeekCurrent)
+		return int(p)
 	}
 	return -1
+}
+
+// IsSeeker reports whether the reader New makes for the plan is an io.Seeker.
+func (p Plan) IsSeeker() bool {
+	switch p.Src {
+	case SrcChunk:
+		return p.Seekable
+	case SrcBytesReader, SrcStringsReader, SrcSection:
+		return true
+	}
+	return false
+}
+
+// ---------------------------------------------------------------- io.ReaderAt sources
+
+// AtPlan describes an io.ReaderAt over a byte string. Short reads are not part
+// of it: ReadAt must fill p unless the data ends (io.ReaderAt contract).
+type AtPlan struct {
+	// Src: "" = *bytes.Reader, SrcStringsReader, SrcSection, or SrcPlainAt.
+	Src string `json:"src,omitempty"`
+	// EagerEOF (SrcPlainAt only): a read whose last byte is the last byte of the
+	// data returns io.EOF together with the bytes; otherwise (as bytes.Reader,
+	// strings.Reader, os.File do) nil, and io.EOF only on a read beyond the end.
+	// The io.ReaderAt contract allows both.
+	EagerEOF bool `json:"eager_eof,omitempty"`
+}
+
+// Class names the plan for histograms.
+func (p AtPlan) Class() string {
+	s := p.Src
+	if s == "" {
+		s = SrcBytesReader
+	}
+	if p.EagerEOF && p.Src == SrcPlainAt {
+		s += "+eager-eof"
+	}
+	return "readerat:" + s
+}
+
+// PlainAt is an io.ReaderAt and nothing else.
+type PlainAt struct {
+	data  []byte
+	eager bool
+	// Reads counts the calls.
+	Reads int
+}
+
+// ReadAt implements io.ReaderAt.
+func (r *PlainAt) ReadAt(p []byte, off int64) (int, error) {
+	r.Reads++
+	if off < 0 {
+		return 0, errors.New("chunkio: negative offset")
+	}
+	if off >= int64(len(r.data)) {
+		return 0, io.EOF
+	}
+	n := copy(p, r.data[off:])
+	if n < len(p) {
+		return n, io.EOF
+	}
+	if r.eager && n > 0 && off+int64(n) == int64(len(r.data)) {
+		return n, io.EOF
+	}
+	return n, nil
+}
+
+// NewAt returns the io.ReaderAt the plan describes.
+func NewAt(data []byte, p AtPlan) io.ReaderAt {
+	switch p.Src {
+	case SrcStringsReader:
+		return strings.NewReader(string(data))
+	case SrcSection:
+		return io.NewSectionReader(bytes.NewReader(data), 0, int64(len(data)))
+	case SrcPlainAt:
+		return &PlainAt{data: data, eager: p.EagerEOF}
+	}
+	return bytes.NewReader(data)
 }
